@@ -40,7 +40,7 @@ def DataFrame_check_dimensions (truth : Term → Bool) (len_set_nrows : Int) : O
   if (!truth (Term.sym "self")) then
     Out.ret [] (Term.sym "None")
   else
-    let nrows' : Term := (Term.sym "[x.nrow for x in self.columns]");
+    let nrows' : Term := (Term.app "ListComp" [(Term.app ".nrow" [(Term.sym "x")]), (Term.app "in" [(Term.sym "x"), (Term.app ".columns" [(Term.sym "self")]), (Term.app "if" [])])]);
     if decide (len_set_nrows = (1 : Int)) then
       Out.ret [] (Term.sym "None")
     else
